@@ -231,7 +231,8 @@ class Variant:
         for f in sorted(self.scoped_files()):
             lines.append("subninja " + f)
         if self.defaults:
-            lines.append("default " + " ".join(spath(x) for x in self.defaults))
+            dsp = getattr(self, "defaults_spell", None) or {}    # how the `default` line alone spells a target
+            lines.append("default " + " ".join(esc_path(dsp[x]) if x in dsp else spath(x) for x in self.defaults))
         return "\n".join(lines) + "\n"
 
     def to_json(self):
